@@ -87,7 +87,7 @@ func isTrustedProxy(remoteIP *string, trustedProxyCIDRs []*net.IPNet) bool {
 	if ip == nil {
 		return false
 	}
-	if len(trustedProxyCIDRs) == 0 {
+	if trustedProxyCIDRs == nil {
 		return true
 	}
 	for _, cidr := range trustedProxyCIDRs {
